@@ -658,7 +658,7 @@ theorem mkRecord_render (groups : Bool) (nd : List (Str × Int)) (path : List St
     (hd : ∀ fq sz, SDim.named fq sz ∈ v.dims → dictGet nd (dimKey fq) = some sz ∧
       (if (splitParts groups (dimKey fq)).length = 1 then '/' :: dimKey fq else dimKey fq) = fq) :
     mkRecord groups nd (keyOf path v.name) ⟨renderVar v, ptag⟩ = .ok (expectVar path v) := by
-  obtain ⟨htag, hname, hattrs, hnd⟩ := hv
+  obtain ⟨htag, hname, hattrs, hnd, hres⟩ := hv
   unfold mkRecord
   simp only []
   rw [var_getAttributes v hattrs, var_getDimNames, var_getMaps,
@@ -675,6 +675,10 @@ theorem mkRecord_render (groups : Bool) (nd : List (Str × Int)) (path : List St
     rw [hks, names_refs groups v.dims (fun fq sz hm => (hd fq sz hm).2)]
     rw [dictOfLog_nodup _ (by simpa [List.map_map, Function.comp_def] using hnd)]
     simp [expectVar, hdt]
+    intro a ha
+    have h := hres a ha
+    simp only [reservedAttrNames, List.mem_cons, List.not_mem_nil, or_false, not_or] at h
+    exact ⟨h.1, Or.inr h.2⟩
 
 /-! ### the checks `parseVars` runs before it lists the variables -/
 
